@@ -124,6 +124,30 @@ theorem finished_same_as_sequential {M R : Type} (m : M) (progs : Nat → List (
   rw [hfin, List.append_nil] at hd1
   rw [hd2, hd1]
 
+/-- Schedule independence stated outright: two schedules — any two — that both let goroutine `j`
+    finish give it the same results, and both leave the shared memory as it was. -/
+theorem results_do_not_depend_on_the_schedule {M R : Type} (m : M) (progs : Nat → List (Op M R))
+    (hro : ∀ j, ∀ op ∈ progs j, op.ReadOnly) (s₁ s₂ : List Nat) (j : Nat)
+    (h₁ : (runSchedule (init m progs) s₁).progs j = [])
+    (h₂ : (runSchedule (init m progs) s₂).progs j = []) :
+    (runSchedule (init m progs) s₁).results j = (runSchedule (init m progs) s₂).results j ∧
+    (runSchedule (init m progs) s₁).mem = (runSchedule (init m progs) s₂).mem := by
+  rw [finished_same_as_sequential m progs hro s₁ j h₁, finished_same_as_sequential m progs hro s₂ j h₂,
+    (same_as_alone m progs hro s₁).1, (same_as_alone m progs hro s₂).1]
+  exact ⟨rfl, rfl⟩
+
+/-- The read-only hypothesis is what carries the theorem (and is what `prototype_only_cloned` /
+    `clone_only_reads` read from the source on every run): with ONE operation that writes the shared
+    memory, two schedules give another goroutine different results. -/
+theorem one_writer_makes_results_schedule_dependent :
+    let rd : Op Nat Nat := ⟨fun m => (m, m)⟩
+    let wr : Op Nat Nat := ⟨fun m => (m + 1, 0)⟩
+    let progs : Nat → List (Op Nat Nat) := fun j => if j = 0 then [rd] else if j = 1 then [wr] else []
+    (runSchedule (init 5 progs) [0, 1]).results 0 = [5] ∧
+    (runSchedule (init 5 progs) [1, 0]).results 0 = [6] ∧
+    (runSchedule (init 5 progs) [0, 1]).progs 0 = [] ∧ (runSchedule (init 5 progs) [1, 0]).progs 0 = [] := by
+  decide
+
 /-- Non-vacuity: two goroutines, three read-only operations, an interleaved schedule. -/
 example :
     let op (k : Nat) : Op Nat Nat := ⟨fun m => (m, m + k)⟩
